@@ -15,7 +15,7 @@ namespace Octo.SsUdpGen
 open Octo Octo.PWGen Octo.AddrGen Octo.Addr
 
 /-- the AES branch of `decrypt_message`: header block, session cipher, detached open, tag cut off -/
-theorem decrypt_message_aes (ov : Bool) (E : MEnv) (N : Usize) (kind : CipherKind) (c : Context MT) (b : List UInt8) (k : Ss.Kind)
+theorem inner_decrypt_message_aes (ov : Bool) (E : MEnv) (N : Usize) (kind : CipherKind) (c : Context MT) (b : List UInt8) (k : Ss.Kind)
     (hk : toKind kind = some k) (hx : SsUdp.xAlg k = none) (h22 : k.is2022 = true)
     (hb : b.length < 2 ^ 64) (hlen : 32 ≤ b.length)
     (hopen : ∀ a key n ad ct p, E.C.openB a key n ad ct = some p → ct.length = p.length + 16)
@@ -66,7 +66,7 @@ theorem decrypt_message_aes (ov : Bool) (E : MEnv) (N : Usize) (kind : CipherKin
 
 /-- **`decode_server_packet_aead_2022` (what the CLIENT runs on a reply), AES kinds** = the model's `decode` in client mode:
 same outcome class (never a panic of its own), same payload, address, client session id, server session id, packet id -/
-theorem decode_server_aes_eq (ov : Bool) (E : MEnv) (N : Usize) (codec : AEADCipherCodec) (c : Context MT) (b : List UInt8) (k : Ss.Kind)
+theorem inner_decode_server_aes_eq (ov : Bool) (E : MEnv) (N : Usize) (codec : AEADCipherCodec) (c : Context MT) (b : List UInt8) (k : Ss.Kind)
     (hk : toKind codec.kind = some k) (hx : SsUdp.xAlg k = none) (h22 : k.is2022 = true) (hm : c.stream_type = Mode.Client)
     (hb : b.length < 2 ^ 64) (hnow : E.now < 2 ^ 64)
     (hopen : ∀ a key n ad ct p, E.C.openB a key n ad ct = some p → ct.length = p.length + 16)
@@ -81,7 +81,7 @@ theorem decode_server_aes_eq (ov : Bool) (E : MEnv) (N : Usize) (codec : AEADCip
   by_cases g1 : b.length < 51
   · simp only [g1, decide_true, if_true, bind_ret, Flow.run, embed]
   simp only [g1, decide_false, Bool.false_eq_true, if_false, bind_next]
-  rw [decrypt_message_aes ov E N codec.kind c b k hk hx h22 hb (by omega) hopen haes]
+  rw [inner_decrypt_message_aes ov E N codec.kind c b k hk hx h22 hb (by omega) hopen haes]
   cases ho : E.C.openB k.alg (SsUdp.aesSessionKey E.C k c.key (rdBE ((E.C.aesDec c.key (b.take 16)).take 8)))
       ((E.C.aesDec c.key (b.take 16)).drop 4) [] (b.drop 16) with
   | none => simp only [call_ok, bind_next, q_err, bind_ret, Flow.run, embed, Option.map_none]
@@ -161,7 +161,7 @@ theorem decode_client_dir_aes_eq (ov : Bool) (E : MEnv) (N : Usize) (codec : AEA
     (hopen : ∀ a key n ad ct p, E.C.openB a key n ad ct = some p → ct.length = p.length + 16)
     (haes : ∀ key x, (E.C.aesDec key x).length = 16) :
     embed (AEADCipherCodec.decode ov (XM E) N codec c b) = SsUdp.decode E.C (toCtx k c) .client E.now b := by
-  rw [← decode_server_aes_eq ov E N codec c b k hk hx h22 hm hb hnow hopen haes]
+  rw [← inner_decode_server_aes_eq ov E N codec c b k hk hx h22 hm hb hnow hopen haes]
   unfold AEADCipherCodec.decode
   simp only [is_aead_2022_eval ov _ k hk, h22, call_ok, bind_next, hm]
   rw [run_call_ret]
